@@ -29,7 +29,7 @@ RULE = ('contents = any subset of the nine signatures (+ FAT look-alike) overlai
         'short files; x allowed_formats (None, singletons, all-but-raw, random subsets) x read-size sequences; the '
         'decision is sampled after every read. non-trivial = at least one signature present or a text/short file; '
         'distinct by (content digest, allowed set, read schedule)')
-REQUIRED_CLAUSES = ['detect_file_format-on-a-pipe', 'expected_format-does-not-change-the-decision', 'text-descriptor-in-one-read-is-vmdk', 'source-hands-out-one-reused-buffer', 'formats-result-owned-by-caller', 'under-warnings-as-errors', 'allowed-respected-with-expected_format', 'interleaved-wrappers', 'zero-length-reads-are-neutral', 'formats-equal-signatures', 'format-decision', 'no-revision', 'only-ImageFormatError',
+REQUIRED_CLAUSES = ['under-debug-logging', 'detect_file_format-on-a-pipe', 'expected_format-does-not-change-the-decision', 'text-descriptor-in-one-read-is-vmdk', 'source-hands-out-one-reused-buffer', 'formats-result-owned-by-caller', 'under-warnings-as-errors', 'allowed-respected-with-expected_format', 'interleaved-wrappers', 'zero-length-reads-are-neutral', 'formats-equal-signatures', 'format-decision', 'no-revision', 'only-ImageFormatError',
                     'raw-exclusive', 'detect_file_format', 'fd-balance']
 ASSUMPTIONS = ['signature predicates written from the property text and the layout comments, sharing no code with the inspectors',
                'F1: for text-like content the VMDK text-descriptor match is chunk dependent; vmdk in formats is DONT-CARE '
